@@ -26,9 +26,12 @@ Proved here:
 
 NOT proved: finiteness / non-NaN-ness / non-negativity of heights under IEEE rounding in the safe
 magnitude range (a float-range fact: no usable IEEE formalisation in Mathlib v4.33); termination
-and panic-freedom of nnchain and generic (they need the chain / heap invariants; fuel exhaustion
-is `Panic.fuel` in the model, so a hang of the real code shows up as a model/implementation
-difference or as the harness watchdog firing).  These are covered by the correspondence run in BOTH
+and panic-freedom of nnchain and generic were open when this header was written (they need the chain
+/ heap invariants; fuel exhaustion is `Panic.fuel` in the model, so a hang of the real code shows up
+as a model/implementation difference or as the harness watchdog firing) — they are now proved under
+explicit hypotheses in the sections appended at the end of this file (`C12_generic_*`;
+`C12_nnchain_*`: unconditional beyond `OrderLaws` + NaN-free input for single/complete, under the
+named hypothesis `ChainReducible` for average/weighted/Ward, which is FALSE for IEEE floats).  These are covered by the correspondence run in BOTH
 build profiles (dev: debug assertions + overflow checks; release) and by the oracle (finite,
 non-negative, returns within a polynomial watchdog) on tie-saturated, all-zero, negative, 1e±150,
 duplicate-point and collinear inputs.
@@ -39,6 +42,9 @@ import Kodama.Lemmas.PrimRun
 import Kodama.Lemmas.GenericRun
 import Kodama.Lemmas.GenericExample
 import Kodama.Lemmas.RelabelWF
+import Kodama.Lemmas.ChainRun
+import Kodama.Lemmas.ChainExact
+import Kodama.Lemmas.SpecDecide
 namespace Kodama
 variable {α : Type} [Num α]
 
@@ -195,3 +201,137 @@ example : ∃ r, genericWith true .average State.new (Dendrogram.new 0)
     (squareData_good .average _ (by simp [G, Method.onSquares]))
 
 end GenericNonVacuity
+
+/-!
+### Appended: `nnchain_with` (chain invariant, `Lemmas/Chain{Mat,Scan,Inv,Iter,Run,Exact}.lean`)
+
+Hypotheses: (i) `OrderLaws α` (`<` is a strict weak order on the non-NaN values; IEEE `<` satisfies
+it), (ii) `NoNaNData`: no NaN among the (squared, for Ward) input distances, (iii) the named ALGEBRAIC
+hypothesis `ChainReducible α mc` (`Lemmas/ChainIter.lean`): whenever `d(a,b) ≤ t ≤ d(a,x), d(b,x)`
+(non-NaN, positive sizes) the Lance–Williams update `d(a∪b,x)` is non-NaN and `≥ t`.
+
+* `C12_nnchain_ok`, `C12_nnchain_total`  `nnchain_with` on every valid matrix (2 ≤ n < 2^31), both
+      build modes, every prior state, under (i)–(iii): the call RETURNS NORMALLY — no index out of
+      bounds, no failed (debug) assertion, no `unwrap` on `None`, no overflow, the fuel
+      `data.size + 2` of the inner `loop` is never exhausted (the chain entries are pairwise distinct
+      live clusters, `ChainL`), and no NaN reaches the sort (every height is a matrix entry between
+      live clusters).  `C12_nnchain_total` is the same in the "ok or nanInSort" form.
+* `C12_nnchain_ok_single_complete`, `C12_nnchain_total_single_complete`  `Single` / `Complete`
+      WITHOUT (iii): their update returns one of its arguments (`chainReducible_single/complete`).
+* `C12_nnchain_ok_exact`  all five chain methods in exact arithmetic (`FieldLaws K`, no NaN):
+      (i) and (iii) are theorems there (`Lemmas/ChainExact.lean`).
+* `C12_linkage_ok`  the same through `linkage_with` for the four methods it routes to nnchain.
+
+NOT proved: `ChainReducible` for average / weighted / Ward over IEEE floats — it is FALSE there
+(rounding breaks reducibility in ~11% of tied updates), so for these three methods totality of
+nnchain on floats is covered by the correspondence run and the oracle, not by a theorem.
+-/
+namespace Kodama
+variable {α : Type} [Num α]
+
+
+/-- `nnchain_with` returns normally on every valid NaN-free matrix, for a reducible method. -/
+theorem C12_nnchain_ok (L : OrderLaws α) (chk : Bool) (mc : MethodChain) (hred : ChainReducible α mc)
+    (st : State α) (d : Dendrogram α) (data : Array α) (n : Nat) (h2 : 2 ≤ n)
+    (hs : n < 2147483648) (hl : 2 * data.size = n * (n - 1))
+    (hnan : NoNaNData (squareData mc.intoMethod data)) :
+    ∃ r, nnchainWith chk mc st d data n = .ok r := by
+  obtain ⟨s1, hres, heq⟩ := nnchainWith_eq L chk mc hred st d data n h2 hs hl hnan
+  rw [heq]
+  obtain ⟨r, hr⟩ := relabel_total mc.intoMethod s1.st.set s1.dend n h2 hres.obs hres.raw
+    (Or.inr (Or.inr hres.heights))
+  exact ⟨_, by rw [hr]; rfl⟩
+
+/-- The same in the form of `C12_mst_total` / `C12_primitive_total`. -/
+theorem C12_nnchain_total (L : OrderLaws α) (chk : Bool) (mc : MethodChain)
+    (hred : ChainReducible α mc) (st : State α) (d : Dendrogram α) (data : Array α) (n : Nat)
+    (h2 : 2 ≤ n) (hs : n < 2147483648) (hl : 2 * data.size = n * (n - 1))
+    (hnan : NoNaNData (squareData mc.intoMethod data)) :
+    (∃ r, nnchainWith chk mc st d data n = .ok r) ∨
+      nnchainWith chk mc st d data n = .error .nanInSort :=
+  Or.inl (C12_nnchain_ok L chk mc hred st d data n h2 hs hl hnan)
+
+theorem chainReducible_single_complete (mc : MethodChain) (hmc : mc = .single ∨ mc = .complete) :
+    ChainReducible α mc := by
+  rcases hmc with rfl | rfl
+  · exact chainReducible_single
+  · exact chainReducible_complete
+
+theorem squareData_single_complete (mc : MethodChain) (hmc : mc = .single ∨ mc = .complete)
+    (data : Array α) : squareData mc.intoMethod data = data := by
+  rcases hmc with rfl | rfl <;> simp [squareData, MethodChain.intoMethod, Method.onSquares]
+
+/-- Single and complete linkage: no reducibility hypothesis. -/
+theorem C12_nnchain_ok_single_complete (L : OrderLaws α) (chk : Bool) (mc : MethodChain)
+    (hmc : mc = .single ∨ mc = .complete) (st : State α) (d : Dendrogram α) (data : Array α)
+    (n : Nat) (h2 : 2 ≤ n) (hs : n < 2147483648) (hl : 2 * data.size = n * (n - 1))
+    (hnan : NoNaNData data) :
+    ∃ r, nnchainWith chk mc st d data n = .ok r :=
+  C12_nnchain_ok L chk mc (chainReducible_single_complete mc hmc) st d data n h2 hs hl
+    (by rw [squareData_single_complete mc hmc]; exact hnan)
+
+theorem C12_nnchain_total_single_complete (L : OrderLaws α) (chk : Bool) (mc : MethodChain)
+    (hmc : mc = .single ∨ mc = .complete) (st : State α) (d : Dendrogram α) (data : Array α)
+    (n : Nat) (h2 : 2 ≤ n) (hs : n < 2147483648) (hl : 2 * data.size = n * (n - 1))
+    (hnan : NoNaNData data) :
+    (∃ r, nnchainWith chk mc st d data n = .ok r) ∨
+      nnchainWith chk mc st d data n = .error .nanInSort :=
+  Or.inl (C12_nnchain_ok_single_complete L chk mc hmc st d data n h2 hs hl hnan)
+
+/-- All five chain methods in exact arithmetic (a linearly ordered field without NaN). -/
+theorem C12_nnchain_ok_exact {K : Type} [Field K] [LinearOrder K] [IsStrictOrderedRing K] [Num K]
+    (F : FieldLaws K) (hnn : ∀ x : K, Num.isNaN x = false) (chk : Bool) (mc : MethodChain)
+    (st : State K) (d : Dendrogram K) (data : Array K) (n : Nat) (h2 : 2 ≤ n)
+    (hs : n < 2147483648) (hl : 2 * data.size = n * (n - 1)) :
+    ∃ r, nnchainWith chk mc st d data n = .ok r :=
+  C12_nnchain_ok (orderLaws_of_fieldLaws F) chk mc (chainReducible_exact F hnn mc) st d data n h2 hs hl
+    (fun _ _ => hnn _)
+
+/-- `linkage_with` routes complete / average / weighted / Ward to `nnchain_with`. -/
+theorem linkageWith_nnchain (chk : Bool) (m : Method) (mc : MethodChain) (hm : m ≠ .single)
+    (hmc : m.intoMethodChain = some mc) (st : State α) (d : Dendrogram α) (data : Array α)
+    (n : Nat) : linkageWith chk m st d data n = nnchainWith chk mc st d data n := by
+  unfold linkageWith dispatch
+  simp [hm, hmc]
+
+theorem C12_linkage_ok (L : OrderLaws α) (chk : Bool) (m : Method) (mc : MethodChain)
+    (hm : m ≠ .single) (hmc : m.intoMethodChain = some mc) (hred : ChainReducible α mc)
+    (st : State α) (d : Dendrogram α) (data : Array α) (n : Nat) (h2 : 2 ≤ n)
+    (hs : n < 2147483648) (hl : 2 * data.size = n * (n - 1))
+    (hnan : NoNaNData (squareData mc.intoMethod data)) :
+    ∃ r, linkageWith chk m st d data n = .ok r := by
+  rw [linkageWith_nnchain chk m mc hm hmc]
+  exact C12_nnchain_ok L chk mc hred st d data n h2 hs hl hnan
+
+/-! Non-vacuity: the hypotheses of the nnchain theorems are satisfiable — a toy exact number type,
+a valid 4-point matrix, and the theorem applied to it. -/
+section NonVacuity
+open Spec
+attribute [local instance] Toy.natNum
+
+example : ∃ r, nnchainWith true .complete State.new (Dendrogram.new 4)
+    (#[5, 2, 9, 7, 4, 1] : Array Nat) 4 = .ok r :=
+  C12_nnchain_ok_single_complete Toy.natOrderLaws true .complete (Or.inr rfl) _ _ _ 4
+    (by decide) (by decide) (by decide) (fun _ _ => rfl)
+
+/-- `ChainReducible` is satisfiable beyond single/complete: the toy `Nat` average (floor division). -/
+example : ChainReducible Nat .average where
+  ge := by
+    intro sizes sa sb dab x va vb v t hsa _ _ _ _ _ _ h1 h2 h
+    simp only [chainUpdFn, updFn, pure, Except.pure, Except.ok.injEq] at h
+    subst h
+    have h1' : t ≤ va := by simpa [Num.lt] using h1
+    have h2' : t ≤ vb := by simpa [Num.lt] using h2
+    show decide ((sa * va + sb * vb) / (sa + sb) < t) = false
+    simp only [decide_eq_false_iff_not, Nat.not_lt]
+    rw [Nat.le_div_iff_mul_le (by omega)]
+    have e1 : sa * t ≤ sa * va := Nat.mul_le_mul_left _ h1'
+    have e2 : sb * t ≤ sb * vb := Nat.mul_le_mul_left _ h2'
+    have : t * (sa + sb) = sa * t + sb * t := by
+      rw [Nat.mul_add, Nat.mul_comm t sa, Nat.mul_comm t sb]
+    omega
+  nan := by intros; rfl
+
+end NonVacuity
+
+end Kodama
